@@ -297,3 +297,64 @@ func H_C17_errors() {
 	checkTensor("no gradient: tensor unchanged", keep, []int{2}, we)
 	vrt.Reach("done")
 }
+
+// bigTensor: a tensor of the given (large) shape whose elements are fixed small numbers except the first
+// two, every 509th and the last nine, which are solver-chosen.
+func bigTensor(name string, dims []int, tracked bool) (T, []float64) {
+	n := numel(dims)
+	e := make([]float64, n)
+	for k := range e {
+		if k >= n-9 || k < 2 || k%509 == 0 {
+			e[k] = vrt.Float(name, k)
+		} else {
+			e[k] = float64(k%7-3) / 4
+		}
+	}
+	return fromFlat(e, dims, tracked), e
+}
+
+// H_C17_big: one SGD step on parameters of thousands of elements (code paths that exist only above a
+// size threshold: chunked or parallel element-wise kernels): every element, the trailing rows included,
+// becomes w - lr*g; the old tensor and its gradient are untouched.
+func H_C17_big() {
+	dims := []int{vrt.Param("n0")}
+	if n1 := vrt.ParamOr("n1", 0); n1 > 0 {
+		dims = append(dims, n1)
+	}
+	if n2 := vrt.ParamOr("n2", 0); n2 > 0 {
+		dims = append(dims, n2)
+	}
+	lr := vrt.Float("lr")
+	opt := optimizers.NewSGD(&optimizers.SGDConfig{LearningRate: lr})
+	w, we := bigTensor("w", dims, true)
+	c, ce := bigTensor("c", dims, false)
+	root, err := w.Mul(c)
+	if err != nil {
+		vrt.Assert("graph construction accepted", false)
+		return
+	}
+	if !backprop("sgd big", root) {
+		return
+	}
+	old := w
+	oldGrad := w.Gradient()
+	if oldGrad == nil {
+		vrt.Assert("weight has a gradient after back-propagation", false)
+		return
+	}
+	ptr := w
+	uerr := opt.Update(&ptr)
+	vrt.Assert("update of a tensor with a gradient succeeds", uerr == nil)
+	if uerr != nil || ptr == nil {
+		return
+	}
+	want := make([]float64, len(we))
+	for k := range want {
+		want[k] = we[k] - lr*ce[k]
+	}
+	checkTensor("SGD w - lr*g on a large parameter", ptr, dims, want)
+	vrt.Assert("the pointer addresses a new tensor", ptr != old)
+	checkTensor("previous large tensor unchanged", old, dims, we)
+	checkTensor("previous large gradient unchanged", oldGrad, dims, ce)
+	vrt.Reach("done")
+}
